@@ -193,8 +193,7 @@ class Vec(np.ndarray):
             Vec: the normalized vector
         """
         nrm = Vec.norm(vec, which)
-        np.seterr(all='raise')
         # we want the following to fail when a division by zero is encountered
-        out = Vec(vec/nrm)
-        np.seterr(all='warn')
+        with np.errstate(all='raise'): # restores the caller's error mode, also when the division fails
+            out = Vec(vec/nrm)
         return out
